@@ -674,6 +674,15 @@ void
     if ( Glu->MemModel == USER ) SLU_VERIF_EVENT(4, Glu->stack.top1 > Glu->stack.top2, (int) type + (Glu->num_expansions ? 16 : 0));
     expanders[type].size = new_len;
     *prev_len = new_len;
+    /* verification hook: after a growth in flight the four arrays [ LUSUP || UCOL || LSUB || USUB ] must lie in this order,
+       without overlap, below the head of the stack */
+    if ( Glu->MemModel == USER && Glu->num_expansions )
+	SLU_VERIF_EVENT(5,
+	    (char*)expanders[LUSUP].mem + (size_t)expanders[LUSUP].size * sizeof(double) > (char*)expanders[UCOL].mem ||
+	    (char*)expanders[UCOL].mem + (size_t)expanders[UCOL].size * sizeof(double) > (char*)expanders[LSUB].mem ||
+	    (char*)expanders[LSUB].mem + (size_t)expanders[LSUB].size * sizeof(int_t) > (char*)expanders[USUB].mem ||
+	    (char*)expanders[USUB].mem + (size_t)expanders[USUB].size * sizeof(int_t) > (char*)Glu->stack.array + Glu->stack.top1,
+	    (int) type);
     if ( Glu->num_expansions ) ++Glu->num_expansions;
     
     return (void *) expanders[type].mem;
